@@ -1681,7 +1681,7 @@ def df_slice(df, lb = None, ub = None, openclose = '(]', n = 1):
         boundaries = sorted(set([date for date in lb + ub if date is not None]))
         df = [d if is_pd(d) else pd.Series(d, boundaries) for d in df]
         if n > 1:
-            df = [pd.concat(df[i: i+n], axis = 1) for i in range(len(df))]
+            df = [pd.concat(df[i: i+n], axis = 1, sort = True) for i in range(len(df))]
             for d in df:
                 d.columns = range(d.shape[1])
     dfs = as_list(df)
@@ -1745,7 +1745,7 @@ def df_unslice(df, ub):
     n = df.shape[1] if is_df(df) else 1
     res = dictable(ub = ub, lb = [None] + ub[:-1], i = range(len(ub)))
     res = res(ts = lambda lb, ub: df_slice(df, lb, ub, '(]'))
-    res = res(rs = lambda i, ts: dictable(u = ub[i: i+n], j = range(len(ub[i: i+n])))(ts = lambda j: ts[j]))
+    res = res(rs = lambda i, ts: dictable(u = ub[i: i+n], j = range(len(ub[i: i+n])))(ts = lambda j: ts[j] if is_df(ts) else ts))
     rs = dictable.concat(res.rs).listby('u').do([pd.concat, nona], 'ts')
     return dict(rs['u', 'ts'])
 
